@@ -72,9 +72,10 @@ func (s *State) heapArr(l loc, comp, elemSort string) (*Term, string, string) {
 
 func (s *State) leafGet(l loc, comp string, w int) *Term {
 	es := sortOf(&Term{W: w})
-	h, _, _ := s.heapArr(l, comp, es)
+	h, name, _ := s.heapArr(l, comp, es)
 	if l.kind == "F" {
 		t := Select(h, l.ref, w)
+		s.entryRefFact(h, name, comp, t, func(h0 *Term) *Term { return Select(h0, l.ref, w) })
 		return t
 	}
 	if s.trace != nil {
@@ -83,7 +84,47 @@ func (s *State) leafGet(l loc, comp string, w int) *Term {
 	s.instantiate(l.ref.String(), l.idx)
 	h, _, _ = s.heapArr(l, comp, es) // instantiation may not change the heap, but keep the read after it
 	inner := SelectSort(h, l.ref, "(Array I64 "+es+")")
-	return Select(inner, l.idx, w)
+	t := Select(inner, l.idx, w)
+	s.entryRefFact(h, name, comp, t, func(h0 *Term) *Term {
+		return Select(SelectSort(h0, l.ref, "(Array I64 "+es+")"), l.idx, w)
+	})
+	return t
+}
+
+// entryRefFact: the heap at entry is closed under references — every reference stored in it (pointer, slice base)
+// denotes memory that existed before the call, hence lies below every allocation of this call. Stated for the
+// entry-heap read underneath the stores of this call, at the place the reference is loaded.
+func (s *State) entryRefFact(h *Term, name, comp string, t *Term, read func(h0 *Term) *Term) {
+	if comp != "base" && comp != "p" {
+		return
+	}
+	root := h
+	for root.core().Op == "store" {
+		root = root.core().Args[0]
+	}
+	if root.Op != "" || root.Leaf != name+"0" {
+		return
+	}
+	t0 := read(root)
+	k := t0.String()
+	if k == t.String() {
+		t.Pre = true // read-over-write may skip the stores of this call's allocations syntactically
+	}
+	if s.spec {
+		// a contract is being evaluated: the fact belongs to the state the evaluation started from
+		if s.root == nil || s.root.spec {
+			return
+		}
+		s = s.root
+	}
+	if s.entryDone == nil {
+		s.entryDone = map[string]bool{}
+	}
+	if s.entryDone[k] {
+		return
+	}
+	s.entryDone[k] = true
+	s.assumeT(ULt(t0, alloc0))
 }
 
 func (s *State) leafSet(l loc, comp string, w int, v *Term) {
